@@ -31,6 +31,10 @@ structure Ref where
   counted : Bool                    -- an identifier in an expression position (a read the specification speaks about)
   decl : Bool := false              -- not a read: the entry logged when `tok` *declares* `name`; `resolved` is then
                                     -- what the name denoted just before (`Variable.shadowed` of the real tables)
+  write : Bool := false             -- not a read: `tok` is a plain-name assignment target / `function name`;
+                                    -- `resolved` is what the name denoted when the write was recorded
+  expr : Bool := true               -- a read in an expression position (false only for the read that
+                                    -- `function f … end` makes of `f` just before writing it)
 deriving DecidableEq, Repr, Inhabited
 
 structure St where
@@ -57,34 +61,56 @@ def St.define (σ : St) (e : Entry) : St :=
 def St.open (σ : St) : St := { σ with stack := [] :: σ.stack }
 def St.close (σ : St) : St := { σ with stack := σ.stack.tail }
 
+/-- Which entries of the log are looked at: name filters, one per kind of entry, applied when the log is
+    *read* (`St.log`, `answers`, `shadows`, `globalAssigns`) — the machine itself does not know them.
+    Every theorem holds for every choice; the filters that keep everything give the raw tables.  `keep`: declarations (the `shadowing` lint's filter: not matched by the ignore pattern, not
+    `...`); `read`: identifier reads (e.g. "is not a standard-library global"); `assign`: plain-name
+    assignment targets that are not locally bound. -/
+class NameFilter where
+  keep : String → Bool
+  read : String → Bool := fun _ => true
+  assign : String → Bool := fun _ => true
+
+/-- the filter that keeps everything: the raw tables -/
+def NameFilter.all : NameFilter := { keep := fun _ => true }
+
 /-- `read_name` (main-chunk `...` is not recorded) -/
 def St.read (σ : St) (t : Tok) (counted : Bool := true) : St :=
   if σ.fdepth = 0 ∧ t.text = "..." then σ
-  else { σ with refs := σ.refs ++ [{ tok := t.idx, name := t.text, resolved := stackFind σ.stack t.text, counted }] }
+  else
+    let r : Ref := { tok := t.idx, name := t.text, resolved := stackFind σ.stack t.text,
+                     counted := counted, expr := counted }
+    { σ with refs := σ.refs ++ [r] }
 
 def rewrite (name : String) (v : Nat × Bool) (r : Ref) : Ref :=
-  if r.name = name ∧ r.resolved = none ∧ r.decl = false then { r with resolved := some v } else r
+  if r.name = name ∧ r.resolved = none ∧ r.decl = false ∧ r.write = false then { r with resolved := some v } else r
 
-/-- `write_name` + `try_hoist` for a plain-name target (writes themselves are not part of the core log) -/
+/-- the local declaration a lookup result denotes, hoisted globals (and the barrier) not counting -/
+def localOf : Option (Nat × Bool) → Option Nat
+  | some (d, false) => some d
+  | _ => none
+
+/-- `write_name`: the write is recorded with what the name denotes at that moment; it counts (for the
+    specification) when that is no local declaration, i.e. when the statement assigns a global -/
+def St.logWrite (σ : St) (t : Tok) : St :=
+  let r : Ref := { tok := t.idx, name := t.text, resolved := stackFind σ.stack t.text,
+                   counted := (localOf (stackFind σ.stack t.text)).isNone,
+                   write := true, expr := false }
+  { σ with refs := σ.refs ++ [r] }
+
+/-- `write_name` + `try_hoist` for a plain-name target -/
 def St.hoist (σ : St) (t : Tok) : St :=
+  let σ := σ.logWrite t
   match stackFind σ.stack t.text with
   | some _ => σ
   | none =>
     let σ' := σ.define { name := t.text, info := some (t.idx, true) }
     { σ' with refs := σ'.refs.map (rewrite t.text (t.idx, true)) }
 
-/-- Which declarations the log keeps: the name filter of the `shadowing` lint (not matched by the
-    ignore pattern, not `...`).  A parameter of the machine — every theorem holds for every filter;
-    the filter that keeps everything gives the raw `Variable.shadowed` table. -/
-class NameFilter where
-  keep : String → Bool
-
-variable [NameFilter]
-
 /-- `define_name_full_with_variable`: `shadowed := find_variable(name)` is taken first, then the variable
     enters the innermost scope -/
 def St.logDecl (σ : St) (t : Tok) (name : String) : St :=
-  let r : Ref := { tok := t.idx, name := name, resolved := stackFind σ.stack name, counted := NameFilter.keep name, decl := true }
+  let r : Ref := { tok := t.idx, name := name, resolved := stackFind σ.stack name, counted := true, decl := true }
   { σ with refs := σ.refs ++ [r] }
 
 def St.declare (σ : St) (t : Tok) (name : String) : St :=
@@ -287,33 +313,56 @@ def localBinding (r : Ref) : Option Nat :=
   | some (d, false) => some d
   | _ => none
 
+/-- `undefined_variable` over the machine's log (undefined_variable.rs:27-63): every read reference
+that is unresolved and whose name is no standard-library global.  (`...` of the main chunk is never
+recorded by the machine.) -/
+def undefinedReports (hasFields : String → Bool) (σ : St) : List Nat :=
+  (σ.refs.filter fun r => !r.decl && !r.write && r.resolved.isNone && !hasFields r.name).map (·.tok)
+
 /-- what the machine answers: the declaration an identifier read denotes / the declaration a newly
     declared name denoted just before -/
 inductive Ans where
   | read (tok : Nat) (binding : Option Nat)
   | decl (tok : Nat) (shadows : Option Nat)
+  | gassign (tok : Nat)                       -- a plain-name assignment target that denotes no local: a global is assigned
 deriving DecidableEq, Repr, Inhabited
 
 def Ref.ans (r : Ref) : Ans :=
-  if r.decl then .decl r.tok (localBinding r) else .read r.tok (localBinding r)
+  if r.decl then .decl r.tok (localBinding r)
+  else if r.write then .gassign r.tok
+  else .read r.tok (localBinding r)
 
-/-- every counted entry of the log, reads and declarations, in the order the visitor records them -/
-def St.log (σ : St) : List Ans := (σ.refs.filter (·.counted)).map Ref.ans
+variable [NameFilter]
+
+/-- does the name filter for the entry's kind keep it? -/
+def Ref.kept (r : Ref) : Bool :=
+  if r.decl then NameFilter.keep r.name else if r.write then NameFilter.assign r.name else NameFilter.read r.name
+
+/-- every counted entry of the log that the filters keep — reads, declarations, global assignments — in
+    the order the visitor records them -/
+def St.log (σ : St) : List Ans := (σ.refs.filter fun r => r.counted && r.kept).map Ref.ans
 
 def Ans.readOf : Ans → Option (Nat × Option Nat)
   | .read t d => some (t, d)
-  | .decl _ _ => none
+  | _ => none
 def Ans.declOf : Ans → Option (Nat × Option Nat)
   | .decl t d => some (t, d)
-  | .read _ _ => none
+  | _ => none
+def Ans.assignOf : Ans → Option Nat
+  | .gassign t => some t
+  | _ => none
 
 /-- token ↦ binding for every counted read, in the order the visitor records them -/
 def St.answers (σ : St) : List (Nat × Option Nat) :=
-  (σ.refs.filter fun r => r.counted && !r.decl).map fun r => (r.tok, localBinding r)
+  (σ.refs.filter fun r => r.counted && r.kept && !r.decl && !r.write).map fun r => (r.tok, localBinding r)
 
 /-- declaration token ↦ the local declaration its name denoted just before (`Variable.shadowed`, a
     global the file assigns not counting), in the order the visitor defines them -/
 def St.shadows (σ : St) : List (Nat × Option Nat) :=
-  (σ.refs.filter fun r => r.counted && r.decl).map fun r => (r.tok, localBinding r)
+  (σ.refs.filter fun r => r.counted && r.kept && r.decl).map fun r => (r.tok, localBinding r)
+
+/-- tokens of the plain-name assignment targets (and `function name` statements) that assign a global -/
+def St.globalAssigns (σ : St) : List Nat :=
+  (σ.refs.filter fun r => r.counted && r.kept && !r.decl && r.write).map (·.tok)
 
 end Selene.Scope.Core
